@@ -7,6 +7,7 @@ from core import *
 from gen import *
 from runner import Part, run_sharded
 import lc
+import vclock  # noqa: F401,E402  (clock trampolines go in before the library binds anything)
 import isotp
 import k1_fuzz
 
